@@ -343,11 +343,15 @@ class Source:
         end = None
         while j < hi:
             t = self.toks[j]
-            if t.kind == 'punct' and t.text == '(':
+            if t.kind == 'punct' and t.text in '([':
                 j = self.pair[j] + 1
                 continue
             if t.kind == 'punct' and t.text == '{':
                 end = self.toks[self.pair[j]].end
+                if kind in ('const', 'static'):
+                    # `const X: T = S { .. };` -- continue to the terminating `;`
+                    j = self.pair[j] + 1
+                    continue
                 break
             if t.kind == 'punct' and t.text == ';':
                 end = t.end
